@@ -281,6 +281,19 @@ fn range_untrusted(o: &mut Out, r: &mut Rng, th: bool) {
             v.truncate(n);
             o.op("verify.range.fill", &format!("verify range{} {}", w, hex(&v)));
         }
+        // well-formed contexts whose bit lengths sum to another instruction's width or overflow a byte
+        for bls in [vec![64u8; 2], vec![64; 4], vec![64; 5], vec![64; 8], vec![32; 8], vec![33; 8], vec![63; 4], vec![64, 64, 64, 63], vec![64, 64, 64, 64, 1]] {
+            let mut v = vec![0u8; n];
+            for (i, b) in bls.iter().enumerate() { v[32 * i..32 * i + 32].copy_from_slice(&valid_point(r)); v[256 + i] = *b; }
+            let mut off = 264;
+            while off + 32 <= n {
+                let slot = (off - 264) / 32;
+                let val = if (4..7).contains(&slot) || off + 64 >= n { valid_scalar(r) } else { valid_point(r) };
+                v[off..off + 32].copy_from_slice(&val);
+                off += 32;
+            }
+            o.op("verify.range.other-sum", &format!("verify range{} {}", w, hex(&v)));
+        }
         for _ in 0..(if th { 30 } else { 8 }) {
             // well-formed context: k commitments (valid points), bit lengths summing to the width (or not), zero padding
             let k = 1 + r.below(8) as usize;
